@@ -12,8 +12,6 @@ type CLIStep struct{}
 
 func (s CLIStep) summary() any { return nil }
 
-func genFault(seed uint64, prop, tier string) *Plan        { die(2, "fault engine not built yet"); return nil }
-func runFault(p *Plan, keepLog bool) *RunResult             { die(2, "fault engine not built yet"); return nil }
 func genSched(seed uint64, prop, tier, mode string) *Plan   { die(2, "sched engine not built yet"); return nil }
 func runSched(p *Plan, keepLog bool, mode string) *RunResult { die(2, "sched engine not built yet"); return nil }
 func genCLI(seed uint64, prop, tier, mode string) *Plan     { die(2, "cli engine not built yet"); return nil }
